@@ -194,6 +194,9 @@ def replay_history(item):
                     model_names = set(case["exp"].keys())
                     if cols & model_names != want:
                         probs.append((f"step{step}:frame", "columns", -1, f"extra={sorted((cols & model_names) - want)} missing={sorted(want - cols)}", ""))
+                    present_extra = {k for k in EXTRA_KEYS if k in res._data}
+                    if not present_extra <= cols:          # plan fields are per-bin arrays too (D holds one start vector per bin)
+                        probs.append((f"step{step}:frame", "columns", -1, f"missing plan columns {sorted(present_extra - cols)}", ""))
                     if cols - model_names - EXTRA_KEYS:
                         probs.append((f"step{step}:frame", "columns", -1, f"unexpected columns {sorted(cols - model_names - EXTRA_KEYS)}", ""))
                     if not np.array_equal(np.asarray(df.index, dtype=float), np.array([rat(b['f']) for b in case['bins']])):
